@@ -11,7 +11,7 @@ PROP_ID = "C05"
 LEVEL = "exploration"
 RULE = (
     "Hypothesis draws EKF definitions with 1..3 sensors of 1..4 readings (unequal per-reading noise; readings need not "
-    "equal states; +-calibration), and per case 3 updates: a state, an SPD covariance (rescaled by a power of two so "
+    "equal states; +-calibration), and per case 4 updates (consecutive ones may share the state or the covariance): a state, an SPD covariance (rescaled by a power of two so "
     "that ||H P H^T|| <= 100*min noise) and a reading that is not rejected (filtering disabled, or normalised innovation "
     "targeted at 0.2x / 0.9x the threshold using the reference S); in 4 of 7 cases noises and prior are scaled together by "
     "1e-14 / 1e-9 / 1e-4 / 1e5 (tolerances for S and P scale with it). sensor_model's state/covariance are compared by name "
@@ -37,12 +37,13 @@ def cases(draw):
                                    n_calib=(0, 2), n_sensors=(1, 3), n_readings=(1, 4), depth=2, sensor_depth=2))
     n = len(spec["state"])
     ups = []
-    for _ in range(3):
+    for i in range(4):
         key = draw(st.sampled_from(sorted(spec["sensors"])))
+        share = draw(st.sampled_from(["none", "point", "P", "none"])) if ups else "none"
         ups.append({
             "key": key,
-            "point": draw(models.points(spec)),
-            "P": draw(ekf.spd(n)),
+            "point": ups[-1]["point"] if share == "point" else draw(models.points(spec)),
+            "P": ups[-1]["P"] if share == "P" else draw(ekf.spd(n)),
             "dir": [draw(st.floats(-1, 1, allow_nan=False)) for _ in range(4)],
             "tau": draw(st.sampled_from([0.2, 0.9])),
             "free_nis": draw(st.floats(0.01, 50.0, allow_nan=False)),
